@@ -13,76 +13,69 @@ def BIND_RETURN_ERROR : Nat := 1
 def BIND_RETURN_INVALID : Nat := 2
 def BIND_RETURN_ALTERNATE_SERVER : Nat := 3
 
-private def t (n : Nat) : UInt16 := UInt16.ofNat n
+/-- attribute code as the 16-bit type the message layer takes -/
+def attrT (n : Nat) : UInt16 := UInt16.ofNat n
+
+abbrev BuildR := M (Nat × Agent × Msg)
+
+/-- `if (append… != STUN_MESSAGE_RETURN_SUCCESS) return 0;` then continue with the new buffer -/
+def tryApp (ag : Agent) (msg : Msg) (r : M (Ret × Bytes)) (k : Msg → BuildR) : BuildR :=
+  match r with
+  | .error e => .error e
+  | .ok (.success, b) => k { msg with buf := b }
+  | .ok (_, b) => .ok (0, ag, { msg with buf := b })
+
+/-- conncheck_create, last part: MS-ICE2 candidate identifier (zero padded to a multiple of 4) and
+    implementation version, then finish with the password -/
+def ccStep3 (H : Hashes) (ag : Agent) (password candidateId : Option Bytes) (compat : Nat) (m : Msg) : BuildR :=
+  let a := some ag.cfg
+  match candidateId with
+  | some cid =>
+    if compat == STUN_USAGE_ICE_COMPATIBILITY_MSICE2 then
+      let idb := cstr cid
+      let alen := if idb.size % 4 != 0 then idb.size + (4 - idb.size % 4) else idb.size
+      tryApp ag m (appendBytes a m.buf (attrT STUN_ATTRIBUTE_CANDIDATE_IDENTIFIER) (takeZ idb alen)) fun m =>
+      tryApp ag m (append32 a m.buf (attrT STUN_ATTRIBUTE_MS_IMPLEMENTATION_VERSION) 2) fun m =>
+      finishMessage H ag m password
+    else finishMessage H ag m password
+  | none => finishMessage H ag m password
+
+/-- conncheck_create, middle part: USERNAME -/
+def ccStep2 (H : Hashes) (ag : Agent) (username password candidateId : Option Bytes) (compat : Nat) (m : Msg) : BuildR :=
+  match username with
+  | some u =>
+    if u.size > 0 then
+      tryApp ag m (appendBytes (some ag.cfg) m.buf (attrT STUN_ATTRIBUTE_USERNAME) u) (ccStep3 H ag password candidateId compat)
+    else ccStep3 H ag password candidateId compat m
+  | none => ccStep3 H ag password candidateId compat m
+
+/-- conncheck_create: PRIORITY and ICE-CONTROLLING / ICE-CONTROLLED -/
+def ccPrio (H : Hashes) (ag : Agent) (username password candidateId : Option Bytes) (controlling : Bool)
+    (priority : UInt32) (tie : UInt64) (compat : Nat) (m : Msg) : BuildR :=
+  let a := some ag.cfg
+  tryApp ag m (append32 a m.buf (attrT STUN_ATTRIBUTE_PRIORITY) priority) fun m =>
+  tryApp ag m (append64 a m.buf
+    (attrT (if controlling then STUN_ATTRIBUTE_ICE_CONTROLLING else STUN_ATTRIBUTE_ICE_CONTROLLED)) tie)
+    (ccStep2 H ag username password candidateId compat)
+
+/-- conncheck_create, first part: USE-CANDIDATE (RFC 5245 / MS-ICE2 dialects only) -/
+def ccStep1 (H : Hashes) (ag : Agent) (username password candidateId : Option Bytes) (candUse controlling : Bool)
+    (priority : UInt32) (tie : UInt64) (compat : Nat) (m : Msg) : BuildR :=
+  if compat == STUN_USAGE_ICE_COMPATIBILITY_RFC5245 || compat == STUN_USAGE_ICE_COMPATIBILITY_MSICE2 then
+    if candUse then
+      tryApp ag m (appendFlag (some ag.cfg) m.buf (attrT STUN_ATTRIBUTE_USE_CANDIDATE))
+        (ccPrio H ag username password candidateId controlling priority tie compat)
+    else ccPrio H ag username password candidateId controlling priority tie compat m
+  else ccStep2 H ag username password candidateId compat m
 
 /-- `stun_usage_ice_conncheck_create` (returns 0 when the message cannot be initialised, fix 8b6e9d4) -/
 def iceConncheckCreate (H : Hashes) (ag : Agent) (buf : Bytes) (id : Bytes)
     (username password : Option Bytes) (candUse controlling : Bool) (priority : UInt32) (tie : UInt64)
-    (candidateId : Option Bytes) (compat : Nat) : M (Nat × Agent × Msg) :=
+    (candidateId : Option Bytes) (compat : Nat) : BuildR :=
   match initRequest ag buf STUN_BINDING id with
   | .error e => .error e
   | .ok (false, msg) => .ok (0, ag, msg)
-  | .ok (true, msg) =>
-    let a := some ag.cfg
-    let fail (b : Bytes) : M (Nat × Agent × Msg) := .ok (0, ag, { msg with buf := b })
-    -- step 1: USE-CANDIDATE, PRIORITY, ICE-CONTROLLING / ICE-CONTROLLED
-    let s1 : M (Bool × Bytes) :=
-      if compat == STUN_USAGE_ICE_COMPATIBILITY_RFC5245 || compat == STUN_USAGE_ICE_COMPATIBILITY_MSICE2 then
-        let r0 : M (Ret × Bytes) :=
-          if candUse then appendFlag a msg.buf (t STUN_ATTRIBUTE_USE_CANDIDATE) else .ok (.success, msg.buf)
-        match r0 with
-        | .error e => .error e
-        | .ok (.success, b) =>
-          match append32 a b (t STUN_ATTRIBUTE_PRIORITY) priority with
-          | .error e => .error e
-          | .ok (.success, b) =>
-            match append64 a b (t (if controlling then STUN_ATTRIBUTE_ICE_CONTROLLING else STUN_ATTRIBUTE_ICE_CONTROLLED)) tie with
-            | .error e => .error e
-            | .ok (.success, b) => .ok (true, b)
-            | .ok (_, b) => .ok (false, b)
-          | .ok (_, b) => .ok (false, b)
-        | .ok (_, b) => .ok (false, b)
-      else .ok (true, msg.buf)
-    match s1 with
-    | .error e => .error e
-    | .ok (false, b) => fail b
-    | .ok (true, b) =>
-      -- step 2: USERNAME
-      let s2 : M (Bool × Bytes) :=
-        match username with
-        | some u =>
-          if u.size > 0 then
-            match appendBytes a b (t STUN_ATTRIBUTE_USERNAME) u with
-            | .error e => .error e
-            | .ok (.success, b) => .ok (true, b)
-            | .ok (_, b) => .ok (false, b)
-          else .ok (true, b)
-        | none => .ok (true, b)
-      match s2 with
-      | .error e => .error e
-      | .ok (false, b) => fail b
-      | .ok (true, b) =>
-        -- step 3: MS-ICE2 candidate identifier + implementation version
-        let s3 : M (Bool × Bytes) :=
-          match candidateId with
-          | some cid =>
-            if compat == STUN_USAGE_ICE_COMPATIBILITY_MSICE2 then
-              let idb := cstr cid
-              let alen := if idb.size % 4 != 0 then idb.size + (4 - idb.size % 4) else idb.size
-              match appendBytes a b (t STUN_ATTRIBUTE_CANDIDATE_IDENTIFIER) (takeZ idb alen) with
-              | .error e => .error e
-              | .ok (.success, b) =>
-                match append32 a b (t STUN_ATTRIBUTE_MS_IMPLEMENTATION_VERSION) 2 with
-                | .error e => .error e
-                | .ok (.success, b) => .ok (true, b)
-                | .ok (_, b) => .ok (false, b)
-              | .ok (_, b) => .ok (false, b)
-            else .ok (true, b)
-          | none => .ok (true, b)
-        match s3 with
-        | .error e => .error e
-        | .ok (false, b) => fail b
-        | .ok (true, b) => finishMessage H ag { msg with buf := b } password
+  | .ok (true, msg) => ccStep1 H ag username password candidateId candUse controlling priority tie compat msg
 
 /-- cookie used by the MSN dialect: the first four bytes of the transaction id (`htonl` of them
     read as a host-order word, i.e. their big-endian value) -/
@@ -111,13 +104,13 @@ def iceConncheckProcess (msg : Msg) (addrlen : Nat) (compat : Nat) : M (Nat × O
         if compat == STUN_USAGE_ICE_COMPATIBILITY_MSN then
           match msnCookie msg.buf with
           | .error e => .error e
-          | .ok ck => findXorAddrFull a msg.buf (t STUN_ATTRIBUTE_XOR_MAPPED_ADDRESS) addrlen ck
-        else findXorAddr a msg.buf (t STUN_ATTRIBUTE_XOR_MAPPED_ADDRESS) addrlen
+          | .ok ck => findXorAddrFull a msg.buf (attrT STUN_ATTRIBUTE_XOR_MAPPED_ADDRESS) addrlen ck
+        else findXorAddr a msg.buf (attrT STUN_ATTRIBUTE_XOR_MAPPED_ADDRESS) addrlen
       match xr with
       | .error e => .error e
       | .ok (.success, ad, al) => .ok (STUN_USAGE_ICE_RETURN_SUCCESS, ad, al)
       | .ok (_, _, al) =>
-        match findAddr a msg.buf (t STUN_ATTRIBUTE_MAPPED_ADDRESS) al with
+        match findAddr a msg.buf (attrT STUN_ATTRIBUTE_MAPPED_ADDRESS) al with
         | .error e => .error e
         | .ok (.success, ad, al) => .ok (STUN_USAGE_ICE_RETURN_SUCCESS, ad, al)
         | .ok (_, _, al) => .ok (STUN_USAGE_ICE_RETURN_NO_MAPPED_ADDRESS, none, al)
@@ -145,6 +138,70 @@ structure ReplyResult where
   control : Bool
   deriving Repr, Inhabited
 
+/-- the `failure:` label of create_reply: map the last append result to the return code
+    (`assert (0)` if it were SUCCESS) -/
+def replyFailure (ag : Agent) (control' : Bool) (val : Ret) (m : Msg) : M (ReplyResult × Agent × Msg) :=
+  match val with
+  | .noSpace => .ok (⟨STUN_USAGE_ICE_RETURN_MEMORY_ERROR, 0, control'⟩, ag, m)
+  | .invalid => .ok (⟨STUN_USAGE_ICE_RETURN_INVALID_ADDRESS, 0, control'⟩, ag, m)
+  | .unsupported => .ok (⟨STUN_USAGE_ICE_RETURN_INVALID_ADDRESS, 0, control'⟩, ag, m)
+  | .success => .error .assertFailed        -- assert (0)
+  | .notFound => .ok (⟨STUN_USAGE_ICE_RETURN_ERROR, 0, control'⟩, ag, m)
+
+/-- the mapped-address attribute of the reply, per dialect -/
+def replyMapped (ag : Agent) (buf : Bytes) (src : SockAddr) (srclen : Nat) (compat : Nat) : M (Ret × Bytes) :=
+  let a := some ag.cfg
+  if compat == STUN_USAGE_ICE_COMPATIBILITY_MSN then
+    match msnCookie buf with
+    | .error e => .error e
+    | .ok ck => appendXorAddrFull a buf (attrT STUN_ATTRIBUTE_XOR_MAPPED_ADDRESS) src srclen ck
+  else
+    match hasCookie buf with
+    | .error e => .error e
+    | .ok hc =>
+      if hc && compat != STUN_USAGE_ICE_COMPATIBILITY_GOOGLE then
+        appendXorAddr a buf (attrT STUN_ATTRIBUTE_XOR_MAPPED_ADDRESS) src srclen
+      else appendAddr a buf (attrT STUN_ATTRIBUTE_MAPPED_ADDRESS) src srclen
+
+/-- copy of the request's USERNAME into the reply (SUCCESS when the request has none) -/
+def replyUsername (ag : Agent) (buf : Bytes) (req : Msg) : M (Ret × Bytes) :=
+  match find req.agent req.buf tUSERNAME with
+  | .error e => .error e
+  | .ok (some (off, len)) =>
+    match rdBytes req.buf off len.toNat with
+    | .error e => .error e
+    | .ok uname => appendBytes (some ag.cfg) buf tUSERNAME uname
+  | .ok none => .ok (.success, buf)
+
+/-- create_reply after stun_agent_init_response succeeded -/
+def replyBody (H : Hashes) (ag : Agent) (req : Msg) (m : Msg) (src : SockAddr) (srclen : Nat) (compat : Nat)
+    (control' : Bool) (ret : Nat) : M (ReplyResult × Agent × Msg) :=
+  match replyMapped ag m.buf src srclen compat with
+  | .error e => .error e
+  | .ok (.success, b) =>
+    let m := { m with buf := b }
+    match replyUsername ag m.buf req with
+    | .error e => .error e
+    | .ok (.success, b) =>
+      let m := { m with buf := b }
+      let ir : M (Ret × Bytes) :=
+        if compat == STUN_USAGE_ICE_COMPATIBILITY_MSICE2 then
+          append32 (some ag.cfg) m.buf (attrT STUN_ATTRIBUTE_MS_IMPLEMENTATION_VERSION) 2
+        else .ok (.success, m.buf)
+      match ir with
+      | .error e => .error e
+      | .ok (.success, b) =>
+        match finishMessage H ag { m with buf := b } none with
+        | .error e => .error e
+        | .ok (0, ag', m') =>
+          match replyFailure ag control' .noSpace m' with
+          | .error e => .error e
+          | .ok (r, _, m'') => .ok (r, ag', m'')
+        | .ok (len, ag', m') => .ok (⟨ret, len, control'⟩, ag', m')
+      | .ok (v, b) => replyFailure ag control' v { m with buf := b }
+    | .ok (v, b) => replyFailure ag control' v { m with buf := b }
+  | .ok (v, b) => replyFailure ag control' v { m with buf := b }
+
 /-- `stun_usage_ice_conncheck_create_reply (agent, req, msg, buf, &len, src, srclen, &control, tie,
     compatibility)`; `buf.size` is the incoming `*plen` -/
 def iceCreateReply (H : Hashes) (ag : Agent) (req : Msg) (old : Msg) (buf : Bytes) (src : SockAddr)
@@ -159,9 +216,9 @@ def iceCreateReply (H : Hashes) (ag : Agent) (req : Msg) (old : Msg) (buf : Byte
     else
       -- role conflict handling
       match find64 req.agent req.buf
-          (t (if control then STUN_ATTRIBUTE_ICE_CONTROLLING else STUN_ATTRIBUTE_ICE_CONTROLLED)),
+          (attrT (if control then STUN_ATTRIBUTE_ICE_CONTROLLING else STUN_ATTRIBUTE_ICE_CONTROLLED)),
         find64 req.agent req.buf
-          (t (if control then STUN_ATTRIBUTE_ICE_CONTROLLED else STUN_ATTRIBUTE_ICE_CONTROLLING)) with
+          (attrT (if control then STUN_ATTRIBUTE_ICE_CONTROLLED else STUN_ATTRIBUTE_ICE_CONTROLLING)) with
       | .ok (r1, q), .ok _ =>
         let decision : Option (Bool × Nat) :=      -- none = answer 487
           if r1 == .success then
@@ -175,65 +232,10 @@ def iceCreateReply (H : Hashes) (ag : Agent) (req : Msg) (old : Msg) (buf : Byte
           | .error e => .error e
           | .ok (len, ag', m) => .ok (⟨STUN_USAGE_ICE_RETURN_ROLE_CONFLICT, len, control⟩, ag', m)
         | some (control', ret) =>
-          let failure (val : Ret) (m : Msg) : M (ReplyResult × Agent × Msg) :=
-            match val with
-            | .noSpace => .ok (⟨STUN_USAGE_ICE_RETURN_MEMORY_ERROR, 0, control'⟩, ag, m)
-            | .invalid => .ok (⟨STUN_USAGE_ICE_RETURN_INVALID_ADDRESS, 0, control'⟩, ag, m)
-            | .unsupported => .ok (⟨STUN_USAGE_ICE_RETURN_INVALID_ADDRESS, 0, control'⟩, ag, m)
-            | .success => .error .assertFailed        -- assert (0)
-            | .notFound => .ok (⟨STUN_USAGE_ICE_RETURN_ERROR, 0, control'⟩, ag, m)
           match initResponse ag old buf req with
           | .error e => .error e
-          | .ok (false, m) => failure .noSpace m
-          | .ok (true, m) =>
-            let a := some ag.cfg
-            let mapped : M (Ret × Bytes) :=
-              if compat == STUN_USAGE_ICE_COMPATIBILITY_MSN then
-                match msnCookie m.buf with
-                | .error e => .error e
-                | .ok ck => appendXorAddrFull a m.buf (t STUN_ATTRIBUTE_XOR_MAPPED_ADDRESS) src srclen ck
-              else
-                match hasCookie m.buf with
-                | .error e => .error e
-                | .ok hc =>
-                  if hc && compat != STUN_USAGE_ICE_COMPATIBILITY_GOOGLE then
-                    appendXorAddr a m.buf (t STUN_ATTRIBUTE_XOR_MAPPED_ADDRESS) src srclen
-                  else appendAddr a m.buf (t STUN_ATTRIBUTE_MAPPED_ADDRESS) src srclen
-            match mapped with
-            | .error e => .error e
-            | .ok (.success, b) =>
-              let m := { m with buf := b }
-              match find req.agent req.buf tUSERNAME with
-              | .error e => .error e
-              | .ok u =>
-                let ur : M (Ret × Bytes) :=
-                  match u with
-                  | some (off, len) =>
-                    match rdBytes req.buf off len.toNat with
-                    | .error e => .error e
-                    | .ok uname => appendBytes a m.buf tUSERNAME uname
-                  | none => .ok (.success, m.buf)
-                match ur with
-                | .error e => .error e
-                | .ok (.success, b) =>
-                  let m := { m with buf := b }
-                  let ir : M (Ret × Bytes) :=
-                    if compat == STUN_USAGE_ICE_COMPATIBILITY_MSICE2 then
-                      append32 a m.buf (t STUN_ATTRIBUTE_MS_IMPLEMENTATION_VERSION) 2
-                    else .ok (.success, m.buf)
-                  match ir with
-                  | .error e => .error e
-                  | .ok (.success, b) =>
-                    match finishMessage H ag { m with buf := b } none with
-                    | .error e => .error e
-                    | .ok (0, ag', m') =>
-                      match failure .noSpace m' with
-                      | .error e => .error e
-                      | .ok (r, _, m'') => .ok (r, ag', m'')
-                    | .ok (len, ag', m') => .ok (⟨ret, len, control'⟩, ag', m')
-                  | .ok (v, b) => failure v { m with buf := b }
-                | .ok (v, b) => failure v { m with buf := b }
-            | .ok (v, b) => failure v { m with buf := b }
+          | .ok (false, m) => replyFailure ag control' .noSpace m
+          | .ok (true, m) => replyBody H ag req m src srclen compat control' ret
       | .error e, _ => .error e
       | _, .error e => .error e
   | .error e, _ => .error e
@@ -270,23 +272,23 @@ def bindProcess (msg : Msg) (addrlen : Nat) (altLen : Option Nat) :
         if code / 100 == 3 then
           match altLen with
           | some al =>
-            match findAddr a msg.buf (t STUN_ATTRIBUTE_ALTERNATE_SERVER) al with
+            match findAddr a msg.buf (attrT STUN_ATTRIBUTE_ALTERNATE_SERVER) al with
             | .error e => .error e
             | .ok (.success, ad, al') => .ok (BIND_RETURN_ALTERNATE_SERVER, none, addrlen, ad, some al')
             | .ok (_, _, al') => .ok (BIND_RETURN_ERROR, none, addrlen, none, some al')
           | none =>
-            match hasAttribute a msg.buf (t STUN_ATTRIBUTE_ALTERNATE_SERVER) with
+            match hasAttribute a msg.buf (attrT STUN_ATTRIBUTE_ALTERNATE_SERVER) with
             | .error e => .error e
             | .ok true => .ok (BIND_RETURN_ALTERNATE_SERVER, none, addrlen, none, none)
             | .ok false => .ok (BIND_RETURN_ERROR, none, addrlen, none, none)
         else .ok (BIND_RETURN_ERROR, none, addrlen, none, altLen)
       | .ok _ => .ok (BIND_RETURN_INVALID, none, addrlen, none, altLen)
     else
-      match findXorAddr a msg.buf (t STUN_ATTRIBUTE_XOR_MAPPED_ADDRESS) addrlen with
+      match findXorAddr a msg.buf (attrT STUN_ATTRIBUTE_XOR_MAPPED_ADDRESS) addrlen with
       | .error e => .error e
       | .ok (.success, ad, al) => .ok (BIND_RETURN_SUCCESS, ad, al, none, altLen)
       | .ok (_, _, al) =>
-        match findAddr a msg.buf (t STUN_ATTRIBUTE_MAPPED_ADDRESS) al with
+        match findAddr a msg.buf (attrT STUN_ATTRIBUTE_MAPPED_ADDRESS) al with
         | .error e => .error e
         | .ok (.success, ad, al) => .ok (BIND_RETURN_SUCCESS, ad, al, none, altLen)
         | .ok (_, _, al) => .ok (BIND_RETURN_ERROR, none, al, none, altLen)
@@ -300,16 +302,6 @@ end Nice.Stun
 namespace Nice.Stun
 open Nice.Gen
 
-private def tt (n : Nat) : UInt16 := UInt16.ofNat n
-
-abbrev BuildR := M (Nat × Agent × Msg)
-
-/-- `if (append… != STUN_MESSAGE_RETURN_SUCCESS) return 0;` then continue with the new buffer -/
-def tryApp (ag : Agent) (msg : Msg) (r : M (Ret × Bytes)) (k : Msg → BuildR) : BuildR :=
-  match r with
-  | .error e => .error e
-  | .ok (.success, b) => k { msg with buf := b }
-  | .ok (_, b) => .ok (0, ag, { msg with buf := b })
 
 def isTurnStd (compat : Nat) : Bool :=
   compat == STUN_USAGE_TURN_COMPATIBILITY_DRAFT9 || compat == STUN_USAGE_TURN_COMPATIBILITY_RFC5766
@@ -343,19 +335,19 @@ def turnCreate (H : Hashes) (ag : Agent) (buf id : Bytes) (prev : Option Msg) (r
     let a := some ag.cfg
     let s1 (k : Msg → BuildR) : BuildR :=
       if isTurnStd compat then
-        tryApp ag msg (append32 a msg.buf (tt STUN_ATTRIBUTE_REQUESTED_TRANSPORT) (UInt32.ofNat TURN_REQUESTED_TRANSPORT_UDP))
+        tryApp ag msg (append32 a msg.buf (attrT STUN_ATTRIBUTE_REQUESTED_TRANSPORT) (UInt32.ofNat TURN_REQUESTED_TRANSPORT_UDP))
           fun m => if bandwidth >= 0 then
-              tryApp ag m (append32 a m.buf (tt STUN_ATTRIBUTE_BANDWIDTH) (UInt32.ofNat bandwidth.toNat)) k
+              tryApp ag m (append32 a m.buf (attrT STUN_ATTRIBUTE_BANDWIDTH) (UInt32.ofNat bandwidth.toNat)) k
             else k m
-      else tryApp ag msg (append32 a msg.buf (tt STUN_ATTRIBUTE_MAGIC_COOKIE) (UInt32.ofNat TURN_MAGIC_COOKIE)) k
+      else tryApp ag msg (append32 a msg.buf (attrT STUN_ATTRIBUTE_MAGIC_COOKIE) (UInt32.ofNat TURN_MAGIC_COOKIE)) k
     s1 fun m =>
     let s2 (k : Msg → BuildR) : BuildR :=
       if compat == STUN_USAGE_TURN_COMPATIBILITY_OC2007 then
-        tryApp ag m (append32 a m.buf (tt STUN_ATTRIBUTE_MS_VERSION) 1) k
+        tryApp ag m (append32 a m.buf (attrT STUN_ATTRIBUTE_MS_VERSION) 1) k
       else k m
     s2 fun m =>
     let s3 (k : Msg → BuildR) : BuildR :=
-      if lifetime >= 0 then tryApp ag m (append32 a m.buf (tt STUN_ATTRIBUTE_LIFETIME) (UInt32.ofNat lifetime.toNat)) k
+      if lifetime >= 0 then tryApp ag m (append32 a m.buf (attrT STUN_ATTRIBUTE_LIFETIME) (UInt32.ofNat lifetime.toNat)) k
       else k m
     s3 fun m =>
     let s4 (k : Msg → BuildR) : BuildR :=
@@ -363,7 +355,7 @@ def turnCreate (H : Hashes) (ag : Agent) (buf id : Bytes) (prev : Option Msg) (r
         let req : Nat :=
           if requestProps &&& STUN_USAGE_TURN_REQUEST_PORT_EVEN_AND_RESERVE != 0 then REQUESTED_PROPS_R ||| REQUESTED_PROPS_E
           else if requestProps &&& STUN_USAGE_TURN_REQUEST_PORT_EVEN != 0 then REQUESTED_PROPS_E else 0
-        tryApp ag m (append32 a m.buf (tt STUN_ATTRIBUTE_REQUESTED_PORT_PROPS) (UInt32.ofNat req)) k
+        tryApp ag m (append32 a m.buf (attrT STUN_ATTRIBUTE_REQUESTED_PORT_PROPS) (UInt32.ofNat req)) k
       else k m
     s4 fun m =>
     let s5 (k : Msg → BuildR) : BuildR :=
@@ -371,9 +363,9 @@ def turnCreate (H : Hashes) (ag : Agent) (buf id : Bytes) (prev : Option Msg) (r
       | some p =>
         copyPrevAttr ag m p tREALM fun m =>
         copyPrevAttr ag m p tNONCE fun m =>
-        match find64 p.agent p.buf (tt STUN_ATTRIBUTE_RESERVATION_TOKEN) with
+        match find64 p.agent p.buf (attrT STUN_ATTRIBUTE_RESERVATION_TOKEN) with
         | .error e => .error e
-        | .ok (.success, tok) => tryApp ag m (append64 a m.buf (tt STUN_ATTRIBUTE_RESERVATION_TOKEN) tok) k
+        | .ok (.success, tok) => tryApp ag m (append64 a m.buf (attrT STUN_ATTRIBUTE_RESERVATION_TOKEN) tok) k
         | .ok _ => k m
       | none => k m
     s5 fun m =>
@@ -391,7 +383,7 @@ def turnCreateRefresh (H : Hashes) (ag : Agent) (buf id : Bytes) (prev : Option 
   | .ok (true, msg) =>
     let a := some ag.cfg
     let s1 (k : Msg → BuildR) : BuildR :=
-      if lifetime >= 0 then tryApp ag msg (append32 a msg.buf (tt STUN_ATTRIBUTE_LIFETIME) (UInt32.ofNat lifetime.toNat)) k
+      if lifetime >= 0 then tryApp ag msg (append32 a msg.buf (attrT STUN_ATTRIBUTE_LIFETIME) (UInt32.ofNat lifetime.toNat)) k
       else k msg
     s1 fun m =>
     let s2 (k : Msg → BuildR) : BuildR :=
@@ -413,7 +405,7 @@ def turnCreatePermission (H : Hashes) (ag : Agent) (old : Msg) (buf id : Bytes)
   | .ok (false, msg) => .ok (0, ag, msg)
   | .ok (true, msg) =>
     let a := some ag.cfg
-    tryApp ag msg (appendXorAddr a msg.buf (tt STUN_ATTRIBUTE_XOR_PEER_ADDRESS) peer sizeofStorage) fun m =>
+    tryApp ag msg (appendXorAddr a msg.buf (attrT STUN_ATTRIBUTE_XOR_PEER_ADDRESS) peer sizeofStorage) fun m =>
     let s1 (k : Msg → BuildR) : BuildR :=
       match nonce with
       | some n => tryApp ag m (appendBytes a m.buf tNONCE n) k
@@ -463,7 +455,7 @@ def turnProcess (msg : Msg) (relayLen addrLen : Nat) (altLen : Option Nat) (comp
           match altLen with
           | some al =>
             if compat == STUN_USAGE_TURN_COMPATIBILITY_OC2007 then
-              match findAddr a msg.buf (tt STUN_ATTRIBUTE_MS_ALTERNATE_SERVER) al with
+              match findAddr a msg.buf (attrT STUN_ATTRIBUTE_MS_ALTERNATE_SERVER) al with
               | .error e => .error e
               | .ok (_, ad, al') => .ok { o0 with alt := ad, altLen := some al' }
             else .ok o0
@@ -474,13 +466,13 @@ def turnProcess (msg : Msg) (relayLen addrLen : Nat) (altLen : Option Nat) (comp
           if code / 100 == 3 then
             match o1.altLen with
             | some al =>
-              match findAddr a msg.buf (tt STUN_ATTRIBUTE_ALTERNATE_SERVER) al with
+              match findAddr a msg.buf (attrT STUN_ATTRIBUTE_ALTERNATE_SERVER) al with
               | .error e => .error e
               | .ok (.success, ad, al') =>
                 .ok { o1 with alt := ad, altLen := some al', ret := STUN_USAGE_TURN_RETURN_ALTERNATE_SERVER }
               | .ok (_, _, al') => .ok { o1 with altLen := some al', ret := STUN_USAGE_TURN_RETURN_ERROR }
             | none =>
-              match hasAttribute a msg.buf (tt STUN_ATTRIBUTE_ALTERNATE_SERVER) with
+              match hasAttribute a msg.buf (attrT STUN_ATTRIBUTE_ALTERNATE_SERVER) with
               | .error e => .error e
               | .ok true => .ok { o1 with ret := STUN_USAGE_TURN_RETURN_ALTERNATE_SERVER }
               | .ok false => .ok { o1 with ret := STUN_USAGE_TURN_RETURN_ERROR }
@@ -489,13 +481,13 @@ def turnProcess (msg : Msg) (relayLen addrLen : Nat) (altLen : Option Nat) (comp
     else
       -- mapped (reflexive) address, then the relayed address; per dialect
       let mappedR : M (Ret × Option SockAddr × Nat) :=
-        if isTurnStd compat then findXorAddr a msg.buf (tt STUN_ATTRIBUTE_XOR_MAPPED_ADDRESS) addrLen
+        if isTurnStd compat then findXorAddr a msg.buf (attrT STUN_ATTRIBUTE_XOR_MAPPED_ADDRESS) addrLen
         else if compat == STUN_USAGE_TURN_COMPATIBILITY_MSN then
-          findAddr a msg.buf (tt STUN_ATTRIBUTE_MSN_MAPPED_ADDRESS) addrLen
+          findAddr a msg.buf (attrT STUN_ATTRIBUTE_MSN_MAPPED_ADDRESS) addrLen
         else if compat == STUN_USAGE_TURN_COMPATIBILITY_OC2007 then
           match msnCookie msg.buf with
           | .error e => .error e
-          | .ok ck => findXorAddrFull a msg.buf (tt STUN_ATTRIBUTE_MS_XOR_MAPPED_ADDRESS) addrLen ck
+          | .ok ck => findXorAddrFull a msg.buf (attrT STUN_ATTRIBUTE_MS_XOR_MAPPED_ADDRESS) addrLen ck
         else .ok (.notFound, none, addrLen)        -- GOOGLE: no mapped address lookup
       match mappedR with
       | .error e => .error e
@@ -505,13 +497,13 @@ def turnProcess (msg : Msg) (relayLen addrLen : Nat) (altLen : Option Nat) (comp
         let r1 := if mr == .success then STUN_USAGE_TURN_RETURN_MAPPED_SUCCESS else STUN_USAGE_TURN_RETURN_RELAY_SUCCESS
         let o1 : TurnOut := { o0 with addr := mad, addrLen := mal, ret := r1 }
         let relayR : M (Ret × Option SockAddr × Nat) :=
-          if isTurnStd compat then findXorAddr a msg.buf (tt STUN_ATTRIBUTE_RELAY_ADDRESS) relayLen
-          else if isDialect then findAddr a msg.buf (tt STUN_ATTRIBUTE_MAPPED_ADDRESS) relayLen
+          if isTurnStd compat then findXorAddr a msg.buf (attrT STUN_ATTRIBUTE_RELAY_ADDRESS) relayLen
+          else if isDialect then findAddr a msg.buf (attrT STUN_ATTRIBUTE_MAPPED_ADDRESS) relayLen
           else .ok (.success, none, relayLen)       -- unknown compatibility value: no lookup at all
         match relayR with
         | .error e => .error e
         | .ok (.success, rad, ral) =>
-          match find32 a msg.buf (tt STUN_ATTRIBUTE_LIFETIME), find32 a msg.buf (tt STUN_ATTRIBUTE_BANDWIDTH) with
+          match find32 a msg.buf (attrT STUN_ATTRIBUTE_LIFETIME), find32 a msg.buf (attrT STUN_ATTRIBUTE_BANDWIDTH) with
           | .ok (lr, lv), .ok (br, bv) =>
             let o2 : TurnOut := { o1 with relay := rad, relayLen := ral }
             let o3 : TurnOut := { o2 with lifetime := if lr == .success then some lv else none }
@@ -535,7 +527,7 @@ def turnRefreshProcess (msg : Msg) (compat : Nat) : M (Nat × Option UInt32) :=
       | .ok (.success, _) => .ok (STUN_USAGE_TURN_RETURN_ERROR, none)
       | .ok _ => .ok (STUN_USAGE_TURN_RETURN_INVALID, none)
     else
-      match find32 a msg.buf (tt STUN_ATTRIBUTE_LIFETIME) with
+      match find32 a msg.buf (attrT STUN_ATTRIBUTE_LIFETIME) with
       | .error e => .error e
       | .ok (.success, v) => .ok (STUN_USAGE_TURN_RETURN_RELAY_SUCCESS, some v)
       | .ok _ => .ok (STUN_USAGE_TURN_RETURN_RELAY_SUCCESS, none)
